@@ -15,12 +15,6 @@ Theorem C24_order_permutes_refuted :
 Proof. intros H. apply Permutation_length in H. vm_compute in H. discriminate. Qed.
 Print Assumptions C24_order_permutes_refuted.
 
-(* count-scalar-query-always-count-distinct: the ordered projection has 3 rows, count() says 2 *)
-Theorem C24_count_refuted : count_default_follows_query = false ->
-  q_aggregate ACount None (add_order idk q_proj) <> Ok (py_aggregate ACount (q_list Z.eqb (add_order idk q_proj))).
-Proof. intros H. unfold q_aggregate, aggr_distinct. rewrite H. vm_compute. discriminate. Qed.
-Print Assumptions C24_count_refuted.
-
 (* sum-avg-group_concat-ignore-query-distinct: select(p.a ...).order_by(1).distinct() is [1; 2] (sum 3); sum() says 4 *)
 Theorem C24_sum_distinct_refuted :
   q_aggregate ASum None (set_distinct true (add_order idk q_proj))
